@@ -725,6 +725,73 @@ def check_scalar_semantics(F, rep, label):
     return n
 
 
+INTS = ("u8", "u16", "u32", "u64", "u128", "i8", "i16", "i32", "i64", "i128", "usize", "isize")
+
+
+def ord_hook(spath, rpath, args, c, ev, fr):
+    """std's total order on integers: Ord::min / max / clamp (trusted as documented)"""
+    import re
+    m = re.search(r"cmp::(?:Ord|impls::<impl std::cmp::Ord for \w+>)::(min|max|clamp)$", spath) or re.search(r"cmp::(?:Ord|impls::<impl (?:std|core)::cmp::Ord for \w+>)::(min|max|clamp)$", rpath or "")
+    if not m:
+        return NotImplemented
+    a = [ev.deref(x) for x in args]
+    ctx = ev.ctx
+    if m.group(1) == "clamp":
+        return ctx.sapp("min", [ctx.sapp("max", [a[0], a[1]]), a[2]])
+    return ctx.sapp(m.group(1), a)
+
+
+def int_meaning(S, tr, m, x):
+    R = S.R
+    t = tr.split("::")[-1]
+    if (t, m) == ("Clamp", "clamp"):
+        return R.min(R.max(x[0], x[1]), x[2])
+    if (t, m) == ("MinMax", "min_max"):
+        return alg.mk_ite(R.gt(x[0], x[1]), Tuple([x[1], x[0]]), Tuple([x[0], x[1]]))   # (smaller, larger)
+    if (t, m) == ("IsValidDivisor", "is_valid_divisor"):
+        return S.ctx.cmp("!=", x[0], S.ctx.num(0))
+    if (t, m) == ("SaturatingAdd", "saturating_add"):
+        return R.f("int.saturating_add", x[0], x[1])
+    if (t, m) == ("SaturatingSub", "saturating_sub"):
+        return R.f("int.saturating_sub", x[0], x[1])
+    return scalar_meaning(S, tr, m, x)
+
+
+def check_integer_semantics(F, rep):
+    """NUM-SEM (integers): integer components (Srgb<u8>, packed colours, clamping and bounds of integer colours) go through palette's own
+    `num` impls for the integer types; each means what the trait says (min is min, clamp is max-then-min, a valid divisor is non-zero)."""
+    n = 0
+    for im in F.impls:
+        st = im["self_s"]
+        tr = _trait_of(F, im)
+        if st not in INTS or not tr or not tr.startswith("num::"):
+            continue
+        for it in im["items"]:
+            b = F.body_by_id.get(it["i"]) if it["kind"] == "Fn" else None
+            if b is None:
+                continue
+            m = it["n"]
+            S = Session(F)
+            S.ctx.expand_minmax = False
+            S.ctx.call_hook = ord_hook
+            nin = len(b.get("ins", []))
+            x = [S.ctx.sym("x%d" % i) for i in range(nin)]
+            if m in ("from_array", "into_array", "powu", "clamp_assign", "clamp_min_assign", "clamp_max_assign"):
+                continue   # lane plumbing (C17 LANES) / assigning twins (C10) / integer power (not used by a conversion)
+            exp = int_meaning(S, tr, m, x)
+            key = "%s::%s[%s]" % (tr.split("::")[-1], m, st)
+            if exp is None:
+                rep.fail("NUM-SEM", key, "integer impl of a num trait method without a stated meaning", F.loc(b))
+                continue
+            try:
+                v, _ = S.ev.eval_body(b, x)
+                check_value(rep, "NUM-SEM", key, S, b, v, exp, sample="= %s" % alg._short(exp, 60))
+                n += 1
+            except (Opaque, poly.TooBig, KeyError, IndexError) as ex:
+                rep.fail("NUM-SEM", key, "uninterpretable: %s" % ex, F.loc(b))
+    rep.floor("integer num impls with a stated meaning", n, 80)
+
+
 def run(F, rep, tier="quick", extra=None, only=None):
     rep.trusted += ["rustc name resolution / type check", "operator table of rules/sym.py",
                     "one-lane abstraction: every primitive of the `wide` crate that palette calls (listed in evidence) acts lane by lane as the same-named "
@@ -741,4 +808,5 @@ def run(F, rep, tier="quick", extra=None, only=None):
     for tag, F2 in (extra or {}).items():
         n2 = check_scalar_semantics(F2, rep, tag)
         rep.floor("scalar trait methods with a stated meaning (%s)" % tag, n2, 60)
+    check_integer_semantics(F, rep)
     return {"level": "other", "explanation": EXPLANATION}
